@@ -95,6 +95,10 @@ def main():
         mod, rel = module_of(f)
         pkg = "./" + os.path.dirname(rel) if os.path.dirname(rel) else "."
         rc, out = sh(["go", "test", "-count=1", pkg], cwd=os.path.join(wt, mod), timeout=1500)
+        for _ in range(2):   # flaky tests (several packages have one): a failure must repeat
+            if rc == 0:
+                break
+            rc, out = sh(["go", "test", "-count=1", pkg], cwd=os.path.join(wt, mod), timeout=1500)
         if rc != 0:
             # compare with the unchanged tree (a test may fail there as well)
             sh(["git", "stash", "-q"], cwd=wt)
